@@ -29,6 +29,7 @@ def _akey(a):
 # ----------------------------------------------------------------------------
 # Polynomials
 # ----------------------------------------------------------------------------
+TIE_LOG = None     # list while a caller watches for conditions decided on an exact tie (C03: rounding robustness)
 SYM_SUBS = {}      # size symbol -> Poly, installed by regions.set_case for the equality branches of a size case
 
 
@@ -512,6 +513,8 @@ def _reduce(num, den):
 def _split_monomial_content(p):
     """p = mono * rest with mono the gcd of its monomials (None if trivial)"""
     common = None
+    if not p.t:
+        return None, p
     for m in p.t:
         d = dict(m)
         common = d if common is None else {a: min(e, d.get(a, 0)) for a, e in common.items() if a in d}
@@ -643,6 +646,53 @@ def _split_pi_const(r):
     return Rat(Poly(t)), c
 
 
+def _factorize(n):
+    """prime factorisation of a small positive integer: [(prime, exponent)]"""
+    out, p = [], 2
+    while p * p <= n:
+        e = 0
+        while n % p == 0:
+            n //= p
+            e += 1
+        if e:
+            out.append((p, e))
+        p += 1 if p == 2 else 2
+    if n > 1:
+        out.append((n, 1))
+    return out
+
+
+def _numeric_sign(p):
+    """sign of a polynomial whose only atoms are sqrt(rational constant), by interval arithmetic with 40 digits; None when 0 is
+    not excluded"""
+    from math import isqrt
+    scale = 10 ** 40
+    lo_t, hi_t = F(0), F(0)
+    for m, c in p.t.items():
+        lo, hi = F(1), F(1)
+        for a, e in m:
+            if not (a[0] == "fn" and a[1] == "sqrt"):
+                return None
+            q = fn_arg(a)
+            if not q.is_const():
+                return None
+            v = q.const_value()
+            if v < 0:
+                return None
+            r = isqrt((v.numerator * scale * scale) // v.denominator)
+            l1, h1 = F(r, scale), F(r + 1, scale)
+            lo, hi = lo * l1 ** e, hi * h1 ** e
+        if c >= 0:
+            lo_t, hi_t = lo_t + c * lo, hi_t + c * hi
+        else:
+            lo_t, hi_t = lo_t + c * hi, hi_t + c * lo
+    if lo_t > 0:
+        return 1
+    if hi_t < 0:
+        return -1
+    return None
+
+
 def mk_fn(name, arg):
     """build name(arg) with the simplification rules of DESIGN 4.1; returns Rat"""
     arg = as_rat(arg)
@@ -668,6 +718,31 @@ def mk_fn(name, arg):
             n, d = v.numerator, v.denominator
             if isqrt(n) ** 2 == n and isqrt(d) ** 2 == d:
                 return Rat(Poly.const(F(isqrt(n), isqrt(d))))
+            if n * d < 10 ** 12:
+                # sqrt(n/d) = sqrt(n*d)/d = (s/d) * sqrt(f) with n*d = s^2 * f, f square-free: canonical
+                sq, free = 1, 1
+                for pr, e in _factorize(n * d):
+                    sq *= pr ** (e // 2)
+                    free *= pr ** (e % 2)
+                if sq != 1 or d != 1:
+                    return Rat(Poly.const(F(sq, d))) * Rat(Poly.atom(("fn", "sqrt", _intern(Rat(Poly.const(free))))))
+        # sqrt(a/b) = sqrt(a)/sqrt(b) when the denominator is a square monomial of positive symbols times a square constant
+        if not arg.den.is_const() and len(arg.den.t) == 1:
+            (dm, dc), = arg.den.t.items()
+            from math import isqrt as _isq
+            if dc > 0 and all(a[0] == "s" and e % 2 == 0 for a, e in dm) and _isq(dc.numerator) ** 2 == dc.numerator and _isq(dc.denominator) ** 2 == dc.denominator:
+                root = Poly({tuple((a, e // 2) for a, e in dm): F(_isq(dc.numerator), _isq(dc.denominator))})
+                return mk_fn("sqrt", Rat(arg.num)) / Rat(root)
+        # sqrt(s^2 * p) -> s * sqrt(p) for positive symbols s in the monomial content
+        if arg.is_poly():
+            p0 = as_poly(arg)
+            mono, rest = _split_monomial_content(p0) if p0.t else ((), p0)
+            mono = mono or ()
+            pulled = tuple((a, e // 2) for a, e in mono if a[0] == "s" and e >= 2)
+            if pulled:
+                left = tuple((a, e % 2) for a, e in mono if a[0] == "s" and e % 2) + tuple((a, e) for a, e in mono if a[0] != "s")
+                inner = rest * Poly({tuple(sorted(left, key=lambda ae: _akey(ae[0]))): F(1)}) if left else rest
+                return Rat(Poly({pulled: F(1)})) * mk_fn("sqrt", Rat(inner))
         # sqrt(q^2 * p) -> q * sqrt(p) for rational constant squares in the content
         if arg.is_poly():
             p = as_poly(arg)
@@ -713,7 +788,14 @@ def mk_fn(name, arg):
                 raise AlgebraError("log of non-positive term")
             res = Rat(Poly())
             if c != 1:
-                res = res + Rat(Poly.atom(("fn", "log", _intern(Rat(Poly.const(c))))))
+                if c.numerator * c.denominator < 10 ** 12:
+                    # canonical: log(prod p_i^e_i) = sum e_i log(p_i)
+                    for pr, e in _factorize(c.numerator):
+                        res = res + Rat(Poly.atom(("fn", "log", _intern(Rat(Poly.const(pr)))))) * e
+                    for pr, e in _factorize(c.denominator):
+                        res = res - Rat(Poly.atom(("fn", "log", _intern(Rat(Poly.const(pr)))))) * e
+                else:
+                    res = res + Rat(Poly.atom(("fn", "log", _intern(Rat(Poly.const(c))))))
             for a, e in m:
                 if a[0] == "fn" and a[1] == "sqrt":
                     res = res + mk_fn("log", fn_arg(a)) * F(e, 2)
@@ -833,6 +915,8 @@ class Cond:
             v = self.p.const_value()
             return {">": v > 0, ">=": v >= 0, "<": v < 0, "<=": v <= 0}[self.op]
         s = _simple_sign(self.p)
+        if s is None and any(a[0] == "fn" for a in self.p.atoms()):
+            s = _numeric_sign(self.p)
         if s is not None:
             return {">": s > 0, ">=": s > 0, "<": s < 0, "<=": s < 0}[self.op]
         return None
@@ -875,6 +959,10 @@ class PW:
     @staticmethod
     def ite(cond, a, b):
         d = cond.decided()
+        if d is not None and TIE_LOG is not None and cond.p.is_const() and cond.p.const_value() == 0 and not (PW.of(a) == PW.of(b)):
+            # a selection between two different values made by comparing two equal real numbers: in floating point the outcome
+            # is a matter of rounding
+            TIE_LOG.append(cond.op)
         if d is True:
             return PW.of(a)
         if d is False:
